@@ -132,6 +132,32 @@ func buildStores() *c20Stores {
 
 // ---------------------------------------------------------------- descriptors <-> objects
 
+// keys: small integers stand for key names; some of them are WELL-KNOWN keys that other components (kubectl
+// apply, the deployment controller, the gateway itself) write and that code may be tempted to treat specially
+var wellKnownKeys = map[int64]string{
+	7: "kubectl.kubernetes.io/last-applied-configuration",
+	8: "deployment.kubernetes.io/revision",
+	9: "proxy.kubegateway.io/feature-gates",
+}
+
+func keyName(k int64) string {
+	if n, ok := wellKnownKeys[k]; ok {
+		return n
+	}
+	return fmt.Sprintf("verif.io/k%d", k)
+}
+
+func keyOf(name string) int64 {
+	for k, n := range wellKnownKeys {
+		if n == name {
+			return k
+		}
+	}
+	a, err := strconv.ParseInt(strings.TrimPrefix(name, "verif.io/k"), 10, 64)
+	must(err)
+	return a
+}
+
 func kv(p *[][2]int64) map[string]string {
 	if p == nil {
 		return nil
@@ -140,10 +166,10 @@ func kv(p *[][2]int64) map[string]string {
 	for _, e := range *p {
 		if e[1] == 0 {
 			// value 0 stands for the empty string (marker annotations / labels)
-			m[fmt.Sprintf("verif.io/k%d", e[0])] = ""
+			m[keyName(e[0])] = ""
 			continue
 		}
-		m[fmt.Sprintf("verif.io/k%d", e[0])] = fmt.Sprintf("v%d", e[1])
+		m[keyName(e[0])] = fmt.Sprintf("v%d", e[1])
 	}
 	return m
 }
@@ -154,10 +180,10 @@ func unkv(m map[string]string) *[][2]int64 {
 	}
 	out := [][2]int64{}
 	for k, v := range m {
-		a, err := strconv.ParseInt(strings.TrimPrefix(k, "verif.io/k"), 10, 64)
-		must(err)
+		a := keyOf(k)
 		var b int64
 		if v != "" {
+			var err error
 			b, err = strconv.ParseInt(strings.TrimPrefix(v, "v"), 10, 64)
 			must(err)
 		}
